@@ -123,6 +123,10 @@ Eval vm_compute in (length cases, length (filter (fun c => negb (ok c)) cases)).
     # ... and an object whose g-function was already requested once while its borehole had yet another radius
     gc += [{"nx": 2, "ny": 2, "months": 12, "H": 100.0, "heights": [60.0, 97.5, 135.0], "H_eval": 97.5, "loads": {"kind": "balanced", "scale": 5000.0, "seed": 1},
             "pipe": "SINGLEUTUBE", "rb": 0.065, "rb_table": 0.075, "first_rb": 0.09}]
+    # short boreholes / other diffusivities, BUILT at the evaluated height: t_s = H^2/(9 alpha) is small, the short-time response then runs
+    # past the first long-time point (ln(t/ts) = -8.5) and the join has to cut it there
+    gc += [{"nx": 1, "ny": 2, "months": 12, "H": h, "heights": [35.0, 60.0, 97.5], "H_eval": h, "k": k, "loads": {"kind": "balanced", "scale": 3000.0, "seed": 1}, "pipe": "SINGLEUTUBE", "hmin": 30.0}
+           for h, k in ([(40.0, 2.0), (75.0, 2.0), (97.5, 3.5)] if quick else [(40.0, 2.0), (60.0, 2.0), (75.0, 2.0), (80.0, 2.0), (97.5, 3.5), (60.0, 1.2), (35.0, 3.5)])]
     from concurrent.futures import ThreadPoolExecutor
     with ThreadPoolExecutor(max_workers=NPROC) as ex:
         r3 = list(ex.map(lambda c: run_impl("gf_drv.py", {"mode": "ghe", "cases": [c]}, timeout=900), gc))
@@ -155,7 +159,8 @@ Eval vm_compute in (length cases, length (filter (fun c => negb (ok c)) cases)).
             pass
     # ---------------- analytical finite-line-source anchor (validated by computation only)
     fl = [{"nx": 1, "ny": 1, "B": 5.0, "H": 100.0, "D": 2.0, "rb": 0.075, "stride": 4}, {"nx": 2, "ny": 3, "B": 5.0, "H": 150.0, "D": 4.0, "rb": 0.06, "stride": 6},
-          {"nx": 1, "ny": 2, "B": 5.0, "H": 30.0, "D": 2.0, "rb": 0.075, "stride": 4}]          # a short borehole: H / r_b = 400
+          {"nx": 1, "ny": 2, "B": 5.0, "H": 30.0, "D": 2.0, "rb": 0.075, "stride": 4},          # a short borehole: H / r_b = 400
+          {"nx": 1, "ny": 1, "B": 5.0, "H": 90.0, "D": 0.0, "rb": 0.075, "stride": 4}, {"nx": 2, "ny": 2, "B": 5.0, "H": 70.0, "D": 0.0, "rb": 0.07, "stride": 6}]   # heads at the surface
     if not quick:
         fl += [{"nx": 3, "ny": 3, "B": 6.0, "H": 80.0, "D": 1.0, "rb": 0.1, "stride": 5}, {"nx": 1, "ny": 1, "B": 5.0, "H": 300.0, "D": 3.0, "rb": 0.065, "stride": 3}]
     with ThreadPoolExecutor(max_workers=NPROC) as ex:
